@@ -289,7 +289,7 @@ impl<'a> G<'a> {
     }
 }
 
-pub fn gen_case(r: &mut Prng) -> (Case, [u64; 4]) {
+pub fn gen_case(r: &mut Prng, big: bool) -> (Case, [u64; 4]) {
     let mut g = G { r, before: vec![], case: Case::new("C08"), reg: MReg::builtin(), n: 0, adjacent_pairs: 0, chains: 0, overrides: 0, shadows: 0 };
     // ASTs parsed once, before every registration of the history, and executed later: a pre-parsed
     // AST must dispatch to whatever is registered when it is EXECUTED
@@ -300,7 +300,7 @@ pub fn gen_case(r: &mut Prng) -> (Case, [u64; 4]) {
             Prog::one(call("max", vec![lit_i(1), bin("*", lit_i(2), lit_i(3))])),
         ];
     }
-    let nops = 2 + g.r.usize(11);
+    let nops = 2 + g.r.usize(if big { 22 } else { 11 });
     let first_is_reg = g.r.chance(1, 2);
     for i in 0..nops {
         let want_reg = if i == 0 { first_is_reg } else { g.r.chance(9, 20) };
@@ -367,9 +367,9 @@ impl Prop for C08 {
         100000 * tier.scale()
     }
 
-    fn run_index(&self, idx: u64, seed: u64, _tier: Tier, rt: &mut Rt) -> Vec<Violation> {
+    fn run_index(&self, idx: u64, seed: u64, tier: Tier, rt: &mut Rt) -> Vec<Violation> {
         let mut r = Prng::derive(seed, "C08.case", idx);
-        let (case, st) = gen_case(&mut r);
+        let (case, st) = gen_case(&mut r, tier == Tier::Thorough);
         let case = Arc::new(case);
         rt.case_seen(case.fingerprint());
         for _ in 0..st[0] {
